@@ -9,3 +9,6 @@ import RactorModel.Props.C16
 import RactorModel.Props.C20
 import RactorModel.Props.C12
 import RactorModel.Props.C05
+import RactorModel.Props.C02
+import RactorModel.Props.C07
+import RactorModel.Props.C06
